@@ -822,6 +822,8 @@ def _sym_exec(fn, env, df_name, sig_name):
     for st in fn.body:
         if isinstance(st, ast.Expr) and isinstance(st.value, ast.Constant):
             continue                                   # docstring
+        if isinstance(st, ast.Assign) and ast.unparse(st) == '%s = check_sig_dtype(%s)' % (sig_name, sig_name):
+            continue                                   # int -> float conversion: the identity on the model's exact values
         if isinstance(st, ast.Assign) and len(st.targets) == 1:
             t = st.targets[0]
             if isinstance(t, ast.Name) and isinstance(st.value, ast.Dict) and not st.value.keys:
